@@ -34,9 +34,9 @@ func init() {
 func (Engine) Name() string { return "proofsim" }
 func (Engine) Runs(prop, tier string) int {
 	if tier == "thorough" {
-		return 120000
+		return 1200000
 	}
-	return 30000
+	return 45000
 }
 func (Engine) Real() []string {
 	return []string{"proof/proof.go (Rep/And/Or provers and verifiers)", "proof/deniable.go (DeniableProver, verifier goroutines, initStep/proofStep/challengeStep)", "proof/hash.go (HashProve/HashVerify)", "group encodings via suite.Read/Write"}
@@ -140,6 +140,21 @@ func genStmt(g kyber.Group, t *core.Tape) *stmt {
 		case len(reps) == 1 && t.Bool("pred", 500):
 			branches = append(branches, reps[0])
 			st.shape += "[rep]"
+		case len(reps) >= 3 && t.Bool("pred.group", 400):
+			// the same conjunction written as a tree: And(.., And(r_i .. r_j), ..) - an inner And of
+			// two or more members with siblings before and/or after it (added after seed C14c: And
+			// spliced a nested And into its parent and lost the sibling that followed it)
+			i := t.Intn("pred.group", len(reps)-1)
+			l := 2 + t.Intn("pred.group", len(reps)-i-1)
+			if i == 0 && l == len(reps) {
+				l--
+			}
+			var outer []proof.Predicate
+			outer = append(outer, reps[:i]...)
+			outer = append(outer, proof.And(append([]proof.Predicate{}, reps[i:i+l]...)...))
+			outer = append(outer, reps[i+l:]...)
+			branches = append(branches, proof.And(outer...))
+			st.shape += fmt.Sprintf("[and%d:nested%d+%d]", nAnd, i, l)
 		default:
 			branches = append(branches, proof.And(reps...))
 			st.shape += fmt.Sprintf("[and%d]", nAnd)
@@ -554,6 +569,7 @@ type cpart struct {
 	id       int
 	st       *stmt
 	verifies []bool
+	vonly    bool // honest participant without a statement of its own: it only verifies the others
 	byz      string
 	ev       chan cevent
 	reply    chan [][]byte
@@ -595,7 +611,7 @@ func runClique(t *core.Tape, info *core.RunInfo) *core.Violation {
 	}
 	fault, victim, fround, onlyFor := "none", -1, 0, -1
 	if !honestClass {
-		fault = []string{"none", "falsified-secret", "drop-out", "truncate-below-commitment", "truncate-proof", "flip-proof-byte", "flip-commitment-byte", "replay-slot-of-other-session", "wrong-key-opening", "claims-false-branch", "rushing-key-forger"}[t.Intn("fault", 11)]
+		fault = []string{"none", "falsified-secret", "drop-out", "truncate-below-commitment", "truncate-proof", "flip-proof-byte", "flip-commitment-byte", "replay-slot-of-other-session", "wrong-key-opening", "claims-false-branch", "rushing-key-forger", "lone-key-forger"}[t.Intn("fault", 12)]
 		victim = t.Intn("fault", k)
 		// every predicate is a 3-move Sigma protocol, so a clique session has exactly three rounds:
 		// 0 = randomness commitment + prover commitments, 1 = opened random keys, 2 = commitment + responses.
@@ -614,6 +630,23 @@ func runClique(t *core.Tape, info *core.RunInfo) *core.Violation {
 			onlyFor = t.Intn("fault", k)
 		}
 	}
+	// verify-only participants: honest nodes that prove nothing themselves (their first message is the
+	// bare randomness commitment) and that nobody verifies
+	var vo []int
+	for i, p := range parts {
+		pm := 150
+		if fault == "lone-key-forger" {
+			pm = 700
+		}
+		if i != victim && t.Bool("cfg.vonly", pm) {
+			p.vonly = true
+			vo = append(vo, i)
+			for _, q := range parts {
+				q.verifies[i] = false
+			}
+		}
+	}
+	info.Config["verify_only"] = vo
 	info.Config["fault"], info.Config["victim"], info.Config["round"], info.Config["only_for"] = fault, victim, fround, onlyFor
 	anyVerifiesVictim := false
 	for i, p := range parts {
@@ -652,13 +685,15 @@ func runClique(t *core.Tape, info *core.RunInfo) *core.Violation {
 	// to the value its pre-computed first message answers. The opened key cannot match its commitment.
 	var forge struct {
 		on      bool
+		lone    bool // the forger opens its key honestly and bets on being the only contributor to the challenge
 		target  []byte
 		V, X    kyber.Point
 		r       kyber.Scalar
 		fakeKey []byte
 	}
-	if fault == "rushing-key-forger" {
+	if fault == "rushing-key-forger" || fault == "lone-key-forger" {
 		forge.on = true
+		forge.lone = fault == "lone-key-forger"
 		forge.target = t.Bytes("fault.val", keySize)
 		forge.fakeKey = t.Bytes("fault.val", keySize)
 		forge.X = suite.Point().Mul(rscalar(suite, t, "fault.val"), nil)
@@ -681,13 +716,17 @@ func runClique(t *core.Tape, info *core.RunInfo) *core.Violation {
 		switch round {
 		case 0:
 			c := make([]byte, keySize)
-			_, _ = suite.XOF(forge.fakeKey).Read(c)
+			if forge.lone {
+				_, _ = suite.XOF(forge.target).Read(c)
+			} else {
+				_, _ = suite.XOF(forge.fakeKey).Read(c)
+			}
 			b.Write(c)
 			_ = suite.Write(&b, forge.V)
 		case 1:
 			key := kit.CopyBytes(forge.target)
 			for i, m := range cur {
-				if i != victim && len(m) >= keySize {
+				if !forge.lone && i != victim && len(m) >= keySize {
 					for j := 0; j < keySize; j++ {
 						key[j] ^= m[j]
 					}
@@ -734,6 +773,9 @@ func runClique(t *core.Tape, info *core.RunInfo) *core.Violation {
 				}
 			}
 			prv := p.st.pred.Prover(suite, p.st.sval, p.st.pval, p.st.choice)
+			if p.vonly {
+				prv = func(proof.ProverContext) error { return nil }
+			}
 			proto := proof.DeniableProver(suite, p.id, prv, vrfs)
 			go func() {
 				var errs []error
@@ -877,7 +919,7 @@ func runClique(t *core.Tape, info *core.RunInfo) *core.Violation {
 		info.SigAdd("%s:%v", p.st.pred.String(), p.verifies)
 	}
 	for _, p := range parts {
-		info.Logf("participant %d (%s) verifies=%v finished=%v dropped=%v errs=%v panic=%v", p.id, p.st.shape, p.verifies, p.finished, p.dropped, p.errs, p.pan)
+		info.Logf("participant %d (%s vonly=%v) verifies=%v finished=%v dropped=%v errs=%v panic=%v", p.id, p.st.shape, p.vonly, p.verifies, p.finished, p.dropped, p.errs, p.pan)
 	}
 	for _, p := range parts {
 		if p.pan != nil {
